@@ -38,7 +38,9 @@ func Copy(source, dest string) error {
 	var out *os.File
 	var tmp string
 	for i := 0; ; i++ {
-		tmp = filepath.Join(filepath.Dir(dest), fmt.Sprintf(".%s.%d-%d.tmp", filepath.Base(dest), os.Getpid(), i))
+		/* a short name of our own: one derived from dest would not fit
+		 * next to a dest that is close to the longest name allowed */
+		tmp = filepath.Join(filepath.Dir(dest), fmt.Sprintf(".copy-%d-%d.tmp", os.Getpid(), i))
 		out, err = os.OpenFile(tmp, os.O_WRONLY|os.O_CREATE|os.O_EXCL, 0666)
 		if err == nil {
 			break
